@@ -15,6 +15,7 @@ def labelsFor (s : S) : List Label :=
   [Label.work, .perTryFire, .globalFire, .downReset .StreamConnectionTermination, .connClose, .terminate 418,
    .terminateStale 0 419] ++
   (ks.map (fun k => Label.terminateRaced 418 k true false)) ++
+  (ks.map (fun k => Label.lateResp k true false)) ++
   (if s.failNext.length < 2 then [.poolFail .overflow, .poolFail .connfail] else []) ++
   (if s.hostsGone then [] else [.hostsGone]) ++
   ks.flatMap (fun k =>
@@ -38,6 +39,7 @@ def labelTok : Label → String
   | .terminate code => s!"TM{code}"
   | .terminateStale _ code => s!"TS{code}"
   | .terminateRaced code k d t => s!"TR{code}:{k}:{bs d}{bs t}"
+  | .lateResp k d t => s!"L{k}:{bs d}{bs t}"
 
 /-- extra per-state checks besides `inv`: a finished exchange has a classified outcome; a parked worker of a two-way
 request can be completed by the global timer -/
